@@ -189,6 +189,46 @@ def run(p, led, tier):
             else:
                 led.fail("C03-R3", k3, where(fi, hn.ast), "the helper's refusal is not turned into a failure result, or its handler falls through to the tool call")
 
+    # ---------------- R4 the declared requirement set reaches the gate intact: nobody rewrites a tool's requirement set
+    # into something that can be smaller (a normalisation that drops what it does not recognise un-requires it)
+    led.rule("C03-R4", "a tool's required capability set is never replaced by a possibly smaller one between declaration and the gate", 1)
+    n_rw = 0
+    for fi in p.all_funcs:
+        for n in walk_no_nested(fi.node):
+            if not isinstance(n, (ast.Assign, ast.AnnAssign, ast.AugAssign)):
+                continue
+            tgts = n.targets if isinstance(n, ast.Assign) else [n.target]
+            for t in tgts:
+                if not (isinstance(t, ast.Attribute) and t.attr in ("required_capabilities", "capabilities") and not (fi.cls is not None and fi.cls.name in ("WiringDiagram", "ModuleSpec"))):
+                    continue
+                if fi.module.rel not in FILES:
+                    continue
+                v = n.value
+                key = f"{fi.qual} ▸ {short(n, 60)}"
+                n_rw += 1
+                same = src(t)
+
+                def preserves(e):
+                    if e is None:
+                        return False
+                    if src(e) == same or (isinstance(e, ast.Name) and e.id in fi.params()):
+                        return True
+                    if isinstance(e, ast.Call) and isinstance(e.func, ast.Name) and e.func.id in ("set", "frozenset") and len(e.args) == 1:
+                        return preserves(e.args[0])
+                    if isinstance(e, ast.BinOp) and isinstance(e.op, ast.BitOr):
+                        return preserves(e.left) or preserves(e.right)
+                    if isinstance(e, ast.BoolOp) and isinstance(e.op, ast.Or):
+                        return preserves(e.values[0])
+                    return False
+                if isinstance(n, ast.AugAssign) and isinstance(n.op, ast.BitOr):
+                    led.ok("C03-R4", key, where(fi, n), "widened only", nontrivial=False)
+                elif preserves(v):
+                    led.ok("C03-R4", key, where(fi, n), "value-preserving (copy / union)", nontrivial=False)
+                else:
+                    led.fail("C03-R4", key, where(fi, n), f"the requirement set is replaced by `{short(v, 60)}`, which need not contain every declared requirement: what it drops is no longer checked by the gate",
+                             witness="a tool registered with required_capabilities={'shell'} runs under allowed_capabilities=set()")
+    led.ok("C03-R4", "package ▸ rewrites of a tool's requirement set", "operon_ai/", f"{n_rw} assignment(s) to a requirement attribute in the analysed files")
+
     # ---------------- R2 entry points (informational obligations)
     entries = set()
     site_funcs = {fi.key for fi, _, _ in sites}
